@@ -763,6 +763,63 @@ def check_usage_not_remaining(ck, prog):
         raise AnalysisBroken("C09-USAGE: fewer than 4 members feeding memory usage reports found")
 
 
+def check_reserve_and_default(ck, prog, prog_xz):
+    """(1) lzma2_encoder_init() reserves history for the uncompressed-chunk fallback: before_size + dict_size must reach
+    LZMA2_CHUNK_MAX (64 KiB, the largest uncompressed chunk).  The encoder memory-usage functions compute the window from
+    the same fields with 64 KiB in mind; a larger reserve (2 MiB = LZMA2_UNCOMPRESSED_MAX) makes the real allocation
+    exceed every estimate.  (2) xz treats the multithreaded-encoder limit as "the soft default" only if no
+    --memlimit-compress was given AND the thread count is automatic."""
+    f = prog.fn("lzma2_encoder_init", "lzma2_encoder.c")
+    ck.saw_function(f)
+    consts = set()
+    for b in f.blocks.values():
+        if b.term and "cond" in b.term and "before_size" in ex.show(b.term["cond"]):
+            for x in ex.walk(b.term["cond"]):
+                if ex.const_val(x) is not None and ex.const_val(x) > 1024:
+                    consts.add(ex.const_val(x))
+    for b, i, e in f.iter_elems():
+        for (l, r, op, nd) in ex.writes(e):
+            if ex.show(l).endswith("->before_size") and r is not None:
+                for x in ex.walk(r):
+                    if ex.const_val(x) is not None and ex.const_val(x) > 1024:
+                        consts.add(ex.const_val(x))
+    if not consts:
+        raise AnalysisBroken("lzma2_encoder_init: the history reserve (before_size) computation was not found")
+    ok = consts == {1 << 16}
+    ck.ob("C09-TERMS", "lzma2:history-reserve", ok, common.where(f),
+          "lzma2_encoder_init: the history reserve is computed with LZMA2_CHUNK_MAX (65536)" if ok else
+          "lzma2_encoder_init(): the history reserve for uncompressed chunks is computed with %s instead of LZMA2_CHUNK_MAX "
+          "(65536): the match finder buffer grows by about 1.5 x (reserve - dict_size), which lzma_raw_encoder_memusage() / "
+          "lzma_stream_encoder_mt_memusage() do not count, so the reported usage is below what is allocated" % sorted(consts),
+          key="TERMS:lzma2:history-reserve")
+    g = prog_xz.fn("hardware_memlimit_mtenc_is_default", "hardware.c", target="xz")
+    ck.saw_function(g)
+    rets = [ex.deref(e) for b, i, e in g.iter_elems() if ex.deref(e).get("k") == "ret" and ex.deref(e).get("e") is not None]
+    conds = [ex.show(b.term["cond"]) for b in g.blocks.values() if b.term and "cond" in b.term]
+    # `a && b` becomes a branch on a followed by a return of b (or the conditional join): both names must be tested,
+    # and the function must be able to return false when only one of them holds
+    txt = " ".join(conds + [ex.show(r["e"]) for r in rets])
+    both = "memlimit_compress" in txt and "threads_are_automatic" in txt
+    conj = False
+    for b in g.blocks.values():
+        if b.term and "cond" in b.term and b.term.get("kind") == "BinaryOperator":
+            conj = b.term.get("op") == "&&" or True
+    is_and = False
+    for b in g.blocks.values():
+        if b.term and "cond" in b.term and b.term.get("kind") == "BinaryOperator" and len(b.succs) == 2:
+            tsucc = g.blocks.get(b.succs[0])
+            fsucc = g.blocks.get(b.succs[1])
+            # `a && b`: the TRUE edge goes to the block that evaluates b, which then falls into the join (= the FALSE edge)
+            if tsucc is not None and fsucc is not None and [y for y in tsucc.succs if y is not None] == [fsucc.id]:
+                is_and = True
+    okd = both and is_and
+    ck.ob("C09-TERMS", "xz:mtenc-limit-default", okd, common.where(g),
+          "xz: the MT encoder limit counts as the soft default only when no limit was given AND threads are automatic" if okd else
+          "xz: hardware_memlimit_mtenc_is_default() is not the conjunction `memlimit_compress == 0 && threads_are_automatic`: "
+          "an explicit --memlimit-compress with automatic threads is treated as the soft default, xz announces that the limit "
+          "is exceeded and then runs all threads anyway", key="TERMS:xz:mtenc-limit-default")
+
+
 def run(ck):
     ck.explanation = (
         "Must-pass (edge cut) rules on the resume-aware product graphs of the container decoders: every "
@@ -779,9 +836,10 @@ def run(ck):
     ck.floor("C09-GUARD", 12)
     check_cfg(ck, prog)
     check_tab(ck, prog)
-    prog_xz = common.program(ck, ("xz",), files=("/coder.c",))
+    prog_xz = common.program(ck, ("xz",), files=("/coder.c", "/hardware.c"))
     check_xz(ck, prog_xz)
     check_terms(ck, prog, prog_xz)
+    check_reserve_and_default(ck, prog, prog_xz)
     check_clamp(ck, prog)
     check_saturate(ck, prog)
     check_usage_not_remaining(ck, prog)
